@@ -27,7 +27,10 @@ static void gp(void){ unsigned long snap[MAXTH+2]; int me=vs_self(); int upto=nr
 	vs_note("syncbegin");
 	for(int t=0;t<MAXTH;t++) if(t!=me && (snap[t]&1)) while(CMM_LOAD_SHARED(gen[t])==snap[t]) caa_cpu_relax();
 	vs_note("syncend"); cmm_smp_mb();
-	for(;npois<upto;npois++){ vs_note("poison %ld",removed[npois]->id); removed[npois]->magic=0; vs_retire(removed[npois],sizeof(struct ent)); }
+	/* the poisoning is the harness's own action (not a store of the code under test): no scheduling point, and an entry removed from both structures is poisoned once */
+	vs_quiet_begin();
+	for(;npois<upto;npois++){ if(removed[npois]->magic==0) continue; vs_note("poison %ld",removed[npois]->id); removed[npois]->magic=0; vs_retire(removed[npois],sizeof(struct ent)); }
+	vs_quiet_end();
 	vs_ret("sync",0); }
 static char *prog[MAXTH]; static int nprog;
 static int valid(void *p){ char *c=(char*)p; return c>=(char*)E && c<(char*)(E+NE) && (c-(char*)E)%sizeof(struct ent)==0; }
